@@ -12,8 +12,8 @@ from core import Spec  # noqa: E402
 MODES = ['fwd', 'rev', 'auto']
 JACS = [None, 'dense', 'csc', 'csr']
 FMTS = ['array', 'dict', 'flat_dict']
-LIN_FF = ['runonce', 'lbgs', 'lbjac', 'direct', 'krylov']
-LIN_CPL = ['runonce', 'lbgs', 'direct', 'direct_cyc', 'krylov', 'krylov_cyc']
+LIN_FF = ['runonce', 'lbgs', 'lbjac', 'direct', 'direct', 'direct_sub', 'krylov']
+LIN_CPL = ['runonce', 'lbgs', 'direct', 'direct', 'direct_cyc', 'direct_sub', 'krylov', 'krylov_cyc']
 
 
 def configs(spec, rng, nextra):
@@ -29,6 +29,10 @@ def configs(spec, rng, nextra):
                'jac': rng.choice(JACS), 'fmt': rng.choice(FMTS), 'driver_scaling': rng.random() < 0.5,
                'nl': rng.choice(['nlbgs', 'nlbgs', 'newton']) if cpl else 'nlbgs',
                'mf': rng.random() < 0.7}
+        if cfg['lin'] in ('runonce', 'lbgs', 'lbjac'):
+            cfg['jac'] = None           # block solvers do not support assembled jacobians
+        if cfg['lin'].startswith('direct') and cfg['jac'] == 'csr':
+            cfg['jac'] = 'csc'          # DirectSolver is implemented for dense and csc only
         cfgs.append(cfg)
     return cfgs
 
